@@ -248,6 +248,18 @@ func crashSignature(stderr string) string {
 	return sig
 }
 
+const wedgeSig = "wedge: the run never became quiescent within its wall-clock budget (a goroutine spins, or blocks on something the scheduler cannot see, e.g. a mutex inside a dependency)"
+
+// deathSignature classifies a worker process that ended without a result:
+// the watchdog fired (wedge) or the process was killed by a panic (crash).
+func deathSignature(w *workerRun) string {
+	st, _ := os.ReadFile(w.status)
+	if len(st) > 0 && st[0] == 'W' {
+		return wedgeSig
+	}
+	return crashSignature(w.stderr)
+}
+
 func loadKnown() []knownFinding {
 	var k struct {
 		Findings []knownFinding `json:"findings"`
@@ -332,12 +344,7 @@ func runReplay(bin, dir, file string, trace bool, tag string) (res *runResult, c
 	w = startWorker(bin, dir, rf.Prop, env, tag)
 	var r runResult
 	if err := readJSON(w.out, &r); err != nil {
-		st, _ := os.ReadFile(w.status)
-		if len(st) > 0 && st[0] == 'W' {
-			fmt.Fprintln(os.Stderr, tail(w.stderr, 80))
-			die2("watchdog fired while replaying %s", file)
-		}
-		return nil, true, crashSignature(w.stderr), w
+		return nil, true, deathSignature(w), w
 	}
 	return &r, false, "", w
 }
@@ -357,7 +364,7 @@ func cmdReplay(file string) int {
 	if crashed {
 		fmt.Printf("replay: worker process died: %s\n", sig)
 		fmt.Println(head(w.stderr, 40))
-		if rf.Violation.Rule == "crash" && strings.Contains(sig, rf.Violation.Msg) || rf.Violation.Rule == "crash" {
+		if rf.Violation.Rule == "crash" || rf.Violation.Rule == "wedge" {
 			fmt.Printf("VIOLATION property=%s replay=%s\n", rf.Prop, file)
 			return 1
 		}
@@ -449,19 +456,22 @@ func cmdCheck(prop, tier string) int {
 		var sum workerSummary
 		if err := readJSON(w.out, &sum); err != nil {
 			st, _ := os.ReadFile(w.status)
-			if len(st) > 0 && st[0] == 'W' {
-				harnessTrouble = append(harnessTrouble, fmt.Sprintf("worker %d: watchdog fired (a run never became quiescent)\n%s", w.idx, tail(w.stderr, 60)))
-				continue
-			}
-			// the process died: a panic on a goroutine of the system under test
+			// the process died: a panic on a goroutine of the system under test,
+			// or the per-run watchdog (a run that never became quiescent). Both are
+			// re-executed from the same seed in fresh processes below and reported
+			// only if they reproduce identically.
 			f := strings.Fields(string(st))
-			if len(f) < 3 || f[0] != "R" {
+			if len(f) < 3 || (f[0] != "R" && f[0] != "W") {
 				harnessTrouble = append(harnessTrouble, fmt.Sprintf("worker %d died before its first run: %v\n%s", w.idx, w.err, tail(w.stderr, 40)))
 				continue
 			}
 			run, _ := strconv.ParseUint(f[1], 10, 64)
-			sig := crashSignature(w.stderr)
-			finds = append(finds, finding{v: violation{Prop: prop, Rule: "crash", Msg: sig}, crash: true, worker: w.idx,
+			sig := deathSignature(w)
+			rule := "crash"
+			if sig == wedgeSig {
+				rule = "wedge"
+			}
+			finds = append(finds, finding{v: violation{Prop: prop, Rule: rule, Msg: sig}, crash: true, worker: w.idx,
 				rf: replayFile{Prop: prop, Scenario: f[2], Seed: seed, Run: run}})
 			continue
 		}
@@ -778,7 +788,7 @@ func shrinkCrash(bin, dir string, rf replayFile, sig string, budgetS int) (repla
 	if err := readJSON(w.out, &sum); err == nil {
 		return rf, false // did not crash again
 	}
-	if crashSignature(w.stderr) != sig {
+	if deathSignature(w) != sig {
 		return rf, false
 	}
 	data, _ := os.ReadFile(live)
@@ -796,6 +806,11 @@ func shrinkCrash(bin, dir string, rf replayFile, sig string, budgetS int) (repla
 		writeJSON(p, c)
 		_, crashed, s, _ := runReplay(bin, dir, p, false, "cand")
 		return crashed && s == sig
+	}
+	if sig == wedgeSig {
+		// every candidate would cost a full watchdog period: not shrunk
+		rf.Note = fmt.Sprintf("wedge; %d decisions up to the point where the run stopped becoming quiescent; not shrunk", len(rf.Decisions))
+		return rf, true
 	}
 	best, tests := shrink.Shrink(rf.Decisions, test, 400, time.Duration(budgetS)*time.Second)
 	rf.Decisions = best
